@@ -37,6 +37,9 @@ let rec set_nth l i x = match l with [] -> [] | h :: t -> if i = 0 then x :: t e
 let () =
   let cf = { fix_auto = Sys.argv.(1) = "1"; fix_copyver = Sys.argv.(2) = "1" } in
   let spec = Array.length Sys.argv > 3 && Sys.argv.(3) = "spec" in
+  (* "inv": evaluate the invariants of the refinement proof (wf_check always, dyn_check while no deviation event touched the slot) *)
+  let inv = Array.length Sys.argv > 3 && Sys.argv.(3) = "inv" in
+  let taint = ref [] in let ninv = ref 0 in let nwf = ref 0 in let ndyn = ref 0 in let firstbad = ref "" in let curseq = ref "" in
   let gs = ref [] in
   let w = ref [] in
   let out = Buffer.create 65536 in
@@ -46,9 +49,9 @@ let () =
       (match toks with
        | "SEQ" :: id :: nslot :: nsub :: _ ->
           w := List.init (int_of_string nslot) (fun _ -> st0 (i2n (int_of_string nsub)));
-          gs := List.map abs !w;
-          Buffer.add_string out ("SEQ " ^ id ^ "\n")
-       | "END" :: _ -> (if spec then List.iteri (fun i g -> gdump out g i) !gs else List.iteri (fun i s -> dump out s i) !w); Buffer.add_string out "END\n"
+          gs := List.map abs !w; taint := List.map (fun _ -> false) !w; curseq := id;
+          if not inv then Buffer.add_string out ("SEQ " ^ id ^ "\n")
+       | "END" :: _ -> if not inv then begin (if spec then List.iteri (fun i g -> gdump out g i) !gs else List.iteri (fun i s -> dump out s i) !w); Buffer.add_string out "END\n" end
        | [] -> ()
        | t :: rest ->
           let a = ref (List.map int_of_string (match t with "On" -> (match rest with s :: _ :: r -> s :: r | _ -> []) | _ -> rest)) in
@@ -92,6 +95,21 @@ let () =
           ignore neg;
           let touched = (match wo with On (sl, _) -> [n2i sl] | CopyC (d, s) | Assign (d, s) | Move (d, s) -> [n2i d; n2i s]) in
           let (w', threw) = wstep cf !w wo in
+          if inv then begin
+            let n = List.length !w in let inr i = i >= 0 && i < n in
+            (match wo with
+             | On (sl, o) -> let i = n2i sl in if inr i && not (legal cf (List.nth !w i) o) then taint := set_nth !taint i true
+             | CopyC (d, s) -> let d = n2i d and s = n2i s in
+                               if inr d && inr s then taint := set_nth !taint d (List.nth !taint s || not (copy_ok cf (List.nth !w s)))
+             | Assign (d, s) -> let d = n2i d and s = n2i s in
+                                if inr d && inr s && d <> s then taint := set_nth !taint d (List.nth !taint s || not (copy_ok cf (List.nth !w s)))
+             | Move (d, s) -> let d = n2i d and s = n2i s in
+                              if inr d && inr s then (let a = List.nth !taint d and b = List.nth !taint s in taint := set_nth (set_nth !taint d b) s a));
+            List.iteri (fun i st -> if List.mem i touched then begin
+                incr ninv;
+                if not (wf_check st) then (incr nwf; if !firstbad = "" then firstbad := "wf " ^ !curseq);
+                if not (List.nth !taint i) && not (dyn_check st) then (incr ndyn; if !firstbad = "" then firstbad := "dyn " ^ !curseq) end) w'
+          end;
           if spec then begin
             let n = List.length !gs in
             let inr i = i >= 0 && i < n in
@@ -111,10 +129,11 @@ let () =
             List.iteri (fun i g -> if List.mem i touched then gdump out g i) !gs
           end;
           w := w';
-          if not spec then begin
+          if not spec && not inv then begin
             Buffer.add_string out (Printf.sprintf "T %d\n" (b2i threw));
             List.iteri (fun i s -> if List.mem i touched then dump out s i) !w
           end);
       if Buffer.length out > 1000000 then (print_string (Buffer.contents out); Buffer.clear out)
     done with End_of_file -> ());
-  print_string (Buffer.contents out)
+  print_string (Buffer.contents out);
+  if inv then Printf.printf "INV states=%d wf_fail=%d dyn_fail=%d first=%s\n" !ninv !nwf !ndyn !firstbad
